@@ -118,6 +118,10 @@ def calls_of(c):
 def new_spec(c):
     f = from_json(c['formula'])
     used = [v for v in c['vars'] if v in F.fvars(f)]
+    if c.get('sem'):
+        # interface-aware semantics: the combined class with input/output declarations
+        io = {v: t for v, t in (c.get('io') or {}).items() if v in used and t}
+        return build(c['kind'][:2], text_of(c), used, semantics=c['sem'], io_types=io)
     return build(c['kind'], text_of(c), used)
 
 
@@ -214,13 +218,22 @@ def check_repeat(case):
 def isolation_cases(draw, tier):
     k = draw(st.sampled_from([2, 2, 3]))
     objs = [draw(one_object(draw(st.sampled_from(KINDS)))) for _ in range(k)]
+    if draw(st.booleans()):
+        # objects with (different) interface-aware semantics side by side; arithmetic over +-inf is avoided by the
+        # usual restriction to predicates under Boolean / temporal operators
+        for o in objs:
+            if draw(st.integers(0, 3)) > 0:
+                f, vs = draw(F.formulas(prof(o['kind']).copy(bin_bool=('and', 'or', 'implies'), bare_operand=False, temporal_in_arith=False), variables=o['vars']))
+                o['formula'] = f
+                o['sem'] = draw(st.sampled_from(['output_robustness', 'input_robustness', 'output_vacuity', 'input_vacuity']))
+                o['io'] = {v: draw(st.sampled_from(['input', 'output', None])) for v in o['vars']}
     order = draw(st.lists(st.integers(0, k - 1), min_size=4, max_size=40))
     return {'objects': objs, 'order': order}
 
 
 def check_isolation(case):
     objs = case['objects']
-    labels = ['objects:%d' % len(objs)] + sorted(set('kind:' + o['kind'] for o in objs))
+    labels = ['objects:%d' % len(objs)] + sorted(set('kind:' + o['kind'] for o in objs)) + sorted(set('sem:' + o['sem'] for o in objs if o.get('sem')))
     try:
         alone = [run_alone(o) for o in objs]
     except Exception as e:  # noqa
@@ -246,11 +259,11 @@ def check_isolation(case):
     except Exception as e:  # noqa
         o = exc_outcome(e)
         return FAIL('isolation-raises:%s' % o[1], 'objects: %s\ninterleaved run raised %s: %s at %s although every object runs alone' % (
-            [text_of(o) for o in objs], o[1], o[3], o[4]), labels)
+            [(text_of(x), x.get('sem'), x.get('io')) for x in objs], o[1], o[3], o[4]), labels)
     for i, o in enumerate(objs):
         if json.dumps(jsonable(outs[i])) != json.dumps(jsonable(alone[i])):
             return FAIL('isolation-differs:' + o['kind'], 'objects: %s\nobject %d alone:       %r\nobject %d interleaved: %r' % (
-                [text_of(x) for x in objs], i, alone[i], i, outs[i]), labels)
+                [(text_of(x), x.get('sem'), x.get('io')) for x in objs], i, alone[i], i, outs[i]), labels)
     stateful = sum(1 for o in objs if any(op in F.STATEFUL_ONLINE for op in F.ops(from_json(o['formula']))))
     return PASS(stateful >= 2 and switches >= 2, labels)
 
